@@ -155,6 +155,9 @@ def body(chk):
         "Layout.tla field tables are a frozen transcription (anchored on the fixed CEOS record sizes)",
         "the leader cross product is covered one dimension at a time + the full cross of facility lengths (additivity)",
     ]
+    from harness import concur
+
+    concur.run(chk)
     chk.finish(
         rule="instances = every <<file, params>> TLC enumerated in MC_Framing (attitude points 1..136 incl. non-standard "
              "record lengths, channels 1..16, facility lengths {66,67,100,1000,5000}^4, map projection 0/1, file pointers "
